@@ -3,11 +3,11 @@
 REAL_CODECS = ["fileformats/*.go (STL, OFF, PLY, CSV readers and writers)", "model3d/import.go", "model3d/export.go",
                "model2d/import.go", "model2d/export.go", "model3d/triangulate.go", "Go runtime, bufio, encoding/csv"]
 
-SIM_REAL = ["model3d, model2d, numerical, render3d, toolbox3d (all library code, built with -tags verif hooks)", AUTO,
-            "Go runtime channels, mutexes, WaitGroups, atomic.Value, sync.Map, global math/rand"]
 AUTO = ("the library is compiled from a scratch copy of /repo's working tree (made under /verif/.build on every run) into which "
         "harness/cmd/autoyield has inserted a scheduling point before every channel operation, WaitGroup Wait/Done, goroutine start, "
         "sync/atomic and sync.Map operation, and lock-depth markers around every mutex critical section; nothing else differs from /repo")
+SIM_REAL = ["model3d, model2d, numerical, render3d, toolbox3d (all library code, built with -tags verif hooks)", AUTO,
+            "Go runtime channels, mutexes, WaitGroups, atomic.Value, sync.Map, global math/rand"]
 SIM_SHIM = ["github.com/unixpickle/essentials concurrency.go (same goroutine structure + scheduling points; other files verbatim)"]
 
 PROPS = {
